@@ -308,11 +308,12 @@ class DataModel:
 
 # ------------------------------------------------------------------ symbolic values
 class Num:
-    __slots__ = ("kind", "t")
+    __slots__ = ("kind", "t", "tk")
 
-    def __init__(self, kind, t):
+    def __init__(self, kind, t, tk=None):
         self.kind = kind
         self.t = t
+        self.tk = tk      # declared tree_type of the method that produced the value (applies only while it is used as a leaf column)
 
     def __repr__(self):
         return f"Num({self.kind},{self.t})"
